@@ -1,7 +1,8 @@
 (* C06 -- property theorems only: each is closed by [exact] of a lemma proved elsewhere. *)
 From Coq Require Import List NArith ZArith.
 From Muscle Require Import Refl.Base Refl.BaseProofs Refl.Tree Refl.Matcher Refl.Session Refl.Server Refl.ServerProofs
-     Refl.IsoModel Refl.IsoBase Refl.IsoFrame Refl.IsoProofs Refl.IsoTold Refl.IsoDetach Refl.IsoRun Refl.IsoClean Refl.IsoExamples.
+     Refl.IsoModel Refl.IsoBase Refl.IsoFrame Refl.IsoProofs Refl.IsoTold Refl.IsoDetach Refl.IsoRun Refl.IsoClean
+     Refl.IsoSimBase Refl.IsoSim Refl.IsoHosts Refl.IsoNever Refl.IsoExamples.
 Import ListNotations.
 
 (* A client cannot give itself privileges. *)
@@ -93,4 +94,61 @@ Proof.
     + reflexivity.
     + left. reflexivity.
     + intros H. discriminate.
+Qed.
+
+(* AS IF NEVER.  For every history evs in which nobody is granted PR_PRIVILEGE_KICK (arrivals under fresh (host, id) pairs,
+   fewer than 2^31-1 subscription strings added) and every session id s: let s's connection end after evs, and compare with
+   the run of the history from which everything s did -- arriving, every command, leaving -- has been erased.  Below host
+   level the two trees are the same list of nodes (paths, payloads, order = child iteration order, subscriber tables); the
+   sessions are the same in the same order with the same identity, subscriptions and update limits; the privilege tables are
+   the same; nobody is marked for removal.  What the other sessions were SENT meanwhile is not compared ("up to outputs
+   already delivered").
+   Partial with respect to the property text in one respect only: histories in which some session holds the kick privilege
+   are excluded (a privileged kick is a visible effect by design; with it the order in which several kicked sessions are
+   removed enters).  Host nodes: next theorem. *)
+Theorem C06_as_if_never_partial : forall (M : MatchOps) (L : MatchLaws M) (fx : fixes), fx_guard fx = true ->
+  forall (s : sid) evs,
+  small (xrun_budget evs) -> xwf_run fx empty_xserver evs -> Forall ev_nokick evs ->
+  let XF := xstep fx (xrun fx evs empty_xserver) (XDetach s) in
+  let XE := xrun fx (erase s evs) empty_xserver in
+  body (sv_tree (xs_sv XF)) = body (sv_tree (xs_sv XE)) /\
+  all_params (xs_sv XF) = all_params (xs_sv XE) /\
+  xs_priv XF = xs_priv XE /\ xs_ducks XF = [] /\ xs_ducks XE = [].
+Proof. exact @as_if_never. Qed.
+Print Assumptions C06_as_if_never_partial.
+
+(* ... and the host nodes: the same hosts exist, with the same payload and the same subscriber count for every session *)
+Theorem C06_as_if_never_hosts : forall (M : MatchOps) (L : MatchLaws M) (fx : fixes), fx_guard fx = true ->
+  forall (s : sid) evs,
+  small (xrun_budget evs) -> xwf_run fx empty_xserver evs -> Forall ev_nokick evs ->
+  let XF := xstep fx (xrun fx evs empty_xserver) (XDetach s) in
+  let XE := xrun fx (erase s evs) empty_xserver in
+  forall h,
+  match find_node (sv_tree (xs_sv XF)) [h], find_node (sv_tree (xs_sv XE)) [h] with
+  | Some a, Some b => n_data a = n_data b /\ forall k, tbl_get (n_subs a) k = tbl_get (n_subs b) k
+  | None, None => True
+  | _, _ => False
+  end.
+Proof. exact @as_if_never_hosts. Qed.
+Print Assumptions C06_as_if_never_hosts.
+
+(* in every reachable state a host node exists iff a session lives on that host (and it carries the empty Message) *)
+Theorem C06_reachable_hosts_ok : forall (M : MatchOps) (L : MatchLaws M) (fx : fixes), fx_guard fx = true ->
+  forall evs xs B, small (B + xrun_budget evs) -> inv B (xs_sv xs) -> hosts_ok (xs_sv xs) ->
+  xwf_run fx xs evs -> hosts_ok (xs_sv (xrun fx evs xs)).
+Proof. exact @reachable_hosts_ok. Qed.
+Print Assumptions C06_reachable_hosts_ok.
+
+(* non-vacuity: a history without kick privilege in which session 11 really did something (three nodes, a refused kick,
+   a refused write into 10's subtree) and the others subscribed to its nodes; erasing 11 leaves a different history *)
+Example C06_as_if_never_premises_satisfiable :
+  small (xrun_budget ex_history2) /\ xwf_run all_fixed empty_xserver ex_history2 /\ Forall ev_nokick ex_history2 /\
+  length (erase 11%N ex_history2) = 4 /\
+  length (sv_tree (xs_sv (xrun all_fixed ex_history2 empty_xserver))) = 8 /\
+  length (sv_tree (xs_sv (xrun all_fixed (erase 11%N ex_history2) empty_xserver))) = 4.
+Proof.
+  split; [vm_compute; reflexivity|]. split.
+  - cbn. repeat split; intros ss Hin; cbn in Hin;
+      repeat (destruct Hin as [Hin|Hin]; [subst ss; cbn; discriminate|]); destruct Hin.
+  - split; [repeat constructor|]. vm_compute. repeat split; reflexivity.
 Qed.
